@@ -8,7 +8,7 @@ namespace Bandit.Plugins
 open Bandit
 
 /-! ## B101 assert_used -/
-def b101 (cfg : CfgVal) (fileName : Str) (_e : Env) : M (Option Raw) :=
+def b101 (cfg : CfgVal) (fileName : Str) (_e : Env) : M (Option PRaw) :=
   match cfg with
   | .map _ =>
     let skips := (cfg.strList? "skips").getD []
@@ -17,17 +17,17 @@ def b101 (cfg : CfgVal) (fileName : Str) (_e : Env) : M (Option Raw) :=
   | _ => throw .attributeError      -- `config.get` on a non-mapping
 
 /-! ## B102 exec_used -/
-def b102 (e : Env) : M (Option Raw) :=
+def b102 (e : Env) : M (Option PRaw) :=
   if e.qual == "exec".toList then pure (some { sev := .medium, conf := .high }) else pure none
 
 /-! ## B104 / B108 (Str checks) -/
-def b104 (e : Env) : M (Option Raw) :=
+def b104 (e : Env) : M (Option PRaw) :=
   if e.node.strConst? == some "0.0.0.0".toList then
     pure (some { sev := .medium, conf := .medium }) else pure none
 
 def defaultTmpDirs : List Str := ["/tmp".toList, "/var/tmp".toList, "/dev/shm".toList]
 
-def b108 (cfg : CfgVal) (e : Env) : M (Option Raw) :=
+def b108 (cfg : CfgVal) (e : Env) : M (Option PRaw) :=
   let dirs := match cfg.get? "tmp_dirs" with
     | some v => v.strs
     | none => defaultTmpDirs
@@ -37,7 +37,7 @@ def b108 (cfg : CfgVal) (e : Env) : M (Option Raw) :=
   | none => throw .attributeError
 
 /-! ## B110 / B112 -/
-def exceptHandler (id : String) (bodyKind : String) (cfg : CfgVal) (e : Env) : M (Option Raw) := do
+def exceptHandler (id : String) (bodyKind : String) (cfg : CfgVal) (e : Env) : M (Option PRaw) := do
   let n := e.node
   let body := n.kidList "body"
   if body.length == 1 then
@@ -52,21 +52,21 @@ def b110 := exceptHandler "B110" "Pass"
 def b112 := exceptHandler "B112" "Continue"
 
 /-! ## B201 flask_debug_true -/
-def b201 (e : Env) : M (Option Raw) := do
+def b201 (e : Env) : M (Option PRaw) := do
   let some c := e.call? | throw .attributeError
   if importedLike e.st "flask" then
     if Str.endsWith e.qual ".run".toList then
       if (← c.checkArg "debug" [.str "True".toList]) == some true then
-        return some { sev := .high, conf := .medium, lineno := c.kwLineno "debug" }
+        return some { sev := .high, conf := .medium, loc := .kw ["debug"] }
   return none
 
 /-! ## B601 paramiko_calls -/
-def b601 (e : Env) : M (Option Raw) :=
+def b601 (e : Env) : M (Option PRaw) :=
   if importedLike e.st "paramiko" && e.name == "exec_command".toList then
     pure (some { sev := .medium, conf := .medium }) else pure none
 
 /-! ## B612 logging_config_insecure_listen -/
-def b612 (e : Env) : M (Option Raw) := do
+def b612 (e : Env) : M (Option PRaw) := do
   let some c := e.call? | throw .attributeError
   if e.qual == "logging.config.listen".toList then
     if !(← c.hasKw "verify") then
@@ -74,14 +74,14 @@ def b612 (e : Env) : M (Option Raw) := do
   return none
 
 /-! ## B702 use_of_mako_templates -/
-def b702 (e : Env) : M (Option Raw) :=
+def b702 (e : Env) : M (Option PRaw) :=
   let parts := Str.splitOn '.' e.qual
   if parts.contains "mako".toList && Str.lastDot e.qual == "Template".toList then
     pure (some { sev := .medium, conf := .high }) else pure none
 
 /-! ## B103 set_bad_file_permissions -/
 def statDangerous (mode : Nat) : Bool := mode &&& 0o33 != 0     -- S_IWOTH|S_IWGRP|S_IXGRP|S_IXOTH = 2|16|8|1
-def b103 (e : Env) : M (Option Raw) := do
+def b103 (e : Env) : M (Option PRaw) := do
   let some c := e.call? | throw .attributeError
   if Str.isInfix "chmod".toList e.name then
     if c.args.length == 2 then
@@ -148,10 +148,10 @@ def isCandidate (s0 : Str) : Bool :=
     | '_' :: t' => let w := wordRests t'; w.any atEnd || w.any (fun r => r.head? == some '_')
     | _ => false
 
-def pwRaw : Raw := { sev := .low, conf := .medium }
+def pwRaw : PRaw := { sev := .low, conf := .medium }
 
 /-! ## B105 hardcoded_password_string -/
-def b105 (e : Env) : M (Option Raw) := do
+def b105 (e : Env) : M (Option PRaw) := do
   let n := e.node
   let some s := n.strConst? | throw .attributeError
   let some par := e.v.parent? | throw .attributeError
@@ -181,9 +181,9 @@ def b105 (e : Env) : M (Option Raw) := do
   else return none
 
 /-! ## B106 hardcoded_password_funcarg -/
-def b106 (e : Env) : M (Option Raw) := do
+def b106 (e : Env) : M (Option PRaw) := do
   let some c := e.call? | throw .attributeError
-  let rec go : List Node → M (Option Raw)
+  let rec go : List Node → M (Option PRaw)
     | [] => pure none
     | kw :: rest =>
       if ((CallView.kwValue kw).map Node.isStrConst).getD false then
@@ -194,14 +194,14 @@ def b106 (e : Env) : M (Option Raw) := do
   go c.keywords
 
 /-! ## B107 hardcoded_password_default -/
-def b107 (e : Env) : M (Option Raw) := do
+def b107 (e : Env) : M (Option PRaw) := do
   let some args := e.node.kid? "args" | throw .attributeError
   let params := args.kidList "args"
   let defaults := args.kidList "defaults"
   -- `[None] * (len(args) - len(defaults))`: a negative count gives no padding
   let pad := params.length - defaults.length
   let defs : List (Option Node) := List.replicate pad none ++ defaults.map some
-  let rec go : List (Node × Option Node) → M (Option Raw)
+  let rec go : List (Node × Option Node) → M (Option PRaw)
     | [] => pure none
     | (key, val) :: rest =>
       match val with
